@@ -39,7 +39,8 @@ from rpyc.utils import classic
 CHUNKS = [1, 2, 3, 7, 64, 4096, 64000]
 NAMES = ["a", "b", "c", "d", "f.txt", "x.pyc", "y.pyc", ".hidden", "d d", " sp", "ünï", "data.bin", "__pycache__", "A", "a.b.c",
          "z" * 100, "-", "~", "a.pyc.txt", "pyc", "中"]
-CASE_TIMEOUT = 60
+CASE_TIMEOUT = 15
+MAX_HANGS = 3
 
 
 # ------------------------------------------------------------------ case description (JSON-able)
@@ -378,7 +379,7 @@ def gen_file_case(r, i):
 
 
 # ------------------------------------------------------------------ running the implementation
-class Hang(Exception):
+class Hang(BaseException):
     pass
 
 
@@ -393,6 +394,7 @@ class Rig:
         self.root = tempfile.mkdtemp(prefix="c20-")
         self.conn = None
         self.n = 0
+        self.hangs = 0
         self.connect()
 
     def connect(self):
@@ -419,12 +421,16 @@ class Rig:
 
     def guarded(self, fn):
         """(outcome, exception-name) with a watchdog"""
+        if self.hangs >= MAX_HANGS:          # already reported; do not spend the budget on more of the same
+            return ("skipped", None)
         old = signal.signal(signal.SIGALRM, _alarm)
-        signal.alarm(CASE_TIMEOUT)
+        signal.setitimer(signal.ITIMER_REAL, CASE_TIMEOUT, 0.5)     # re-fires in case library code swallows the first one
         try:
             fn()
             return ("ok", None)
         except Hang:
+            signal.setitimer(signal.ITIMER_REAL, 0)
+            self.hangs += 1
             self.connect()
             return ("hang", None)
         except OSError as e:
@@ -432,7 +438,7 @@ class Rig:
         except Exception as e:
             return ("exc", C.exc_enum(e))
         finally:
-            signal.alarm(0)
+            signal.setitimer(signal.ITIMER_REAL, 0)
             signal.signal(signal.SIGALRM, old)
 
 
@@ -515,6 +521,9 @@ def check_files(ctx, model, rig, cases):
         data = file_bytes(case["src"])
         chunk = case["chunk"]
         out, src1, dst1, log = run_file_impl(rig, case)
+        if out[0] == "skipped":
+            ctx.count("skipped-after-hangs")
+            continue
         key = ("file", case["dir"], chunk, hashlib.sha1(data).hexdigest(), case["dst"] is not None)
         ctx.case(key, nontrivial=len(data) >= 1, sample=small(case))
         rel = "empty" if not data else ("<chunk" if len(data) < chunk else ("multiple" if len(data) % chunk == 0 else
@@ -566,6 +575,9 @@ def check_trees(ctx, model, rig, cases):
     res = model.batch(mcases) if model else None
     for i, case in enumerate(cases):
         src0, dst0, out, src1, dst1 = runs[i]
+        if out[0] == "skipped":
+            ctx.count("skipped-after-hangs")
+            continue
         up = case["dir"] == "upload"
         chunk, flt = case["chunk"], case["filter"]
         topkind = "missing" if src0 is None else {"f": "file", "d": "dir", "s": "special"}[src0[0]]
